@@ -38,6 +38,22 @@
 (*                    the old clients (`defer Unlock()`): FALSE in the code; *)
 (*                    TRUE must violate NoStuckReset (reset waits for the   *)
 (*                    reader, the reader waits for the lock)                *)
+(* What a backend connection depends on indirectly:                         *)
+(*  - the hot-key collector hands out one counter PER ADDRESS (AllocCounter):*)
+(*    the successor connection of an address gets the counter the old       *)
+(*    client still has registered; client.Stop frees it (unregisters it     *)
+(*    under the collector's lock, resets it under the counter's lock) while *)
+(*    the collector's pass holds its lock and latches each counter.         *)
+(*      FreeDestroys        - Free leaves the counter unusable (FALSE in    *)
+(*                            the code: reset); TRUE must violate NoCrash   *)
+(*      FreeHoldsCounterLock- Free keeps the counter's lock while it takes  *)
+(*                            the collector's lock (FALSE in the code);     *)
+(*                            TRUE must violate NoLockCycle                 *)
+(*  - the connect timeout of the run-time configuration: an update that     *)
+(*    omits it gets the default from the processor wrapper.                 *)
+(*      UpdateLosesDefaults - the defaults do not reach the processor       *)
+(*                            (FALSE in the code); TRUE must violate        *)
+(*                            NoCrash at the next connect                   *)
 (*   AskSelectsQuit - the hand-over of the ASKING placeholder also waits    *)
 (*                    for quit (FALSE: plain channel send, the writer stays *)
 (*                    blocked for ever when the connection is lost)         *)
@@ -52,7 +68,11 @@ CONSTANTS Reqs,           \* request ids (naturals, issued in order)
           MaxAsk,         \* bound on requests that follow an ASK redirection
           FixCallEntry, FixRemoveOwn, FixResetSnapshot,
           AskSelectsQuit,
-          ResetStopsUnderLock
+          ResetStopsUnderLock,
+          Counters,       \* BOOLEAN: model the counter registry and its locks
+          MaxCollects,    \* bound on collector passes
+          MaxCfg,         \* bound on run-time configuration updates
+          FreeDestroys, FreeHoldsCounterLock, UpdateLosesDefaults
 
 NoClient == 0
 Pending == MaxClients + 1     \* result of a call that has not finished yet
@@ -81,10 +101,23 @@ VARIABLES
   asking,       \* asking[r]: r follows an ASK redirection (the writer sends ASKING in front of it)
   wedged,       \* wedged[c]: connection lost, but the writer never woke up: Start() never returns
   stalls, asks,
-  mu            \* clientsMu: "free" | "reset" (createClient / removeExitedClient hold it within one step)
+  mu,           \* clientsMu: "free" | "reset" (createClient / removeExitedClient hold it within one step)
+  reg,          \* counter registered under the address in the collector (0 = none)
+  cctr,         \* cctr[c]: counter client c increments for every keyed command
+  dead,         \* dead[k]: counter k was freed in a way that leaves it unusable
+  tostop,       \* clients resetAllClients still has to Stop (Stop frees the client's counter)
+  fr,           \* client whose Stop is between the two halves of Counter.Free (0 = none)
+  rw,           \* the collector's lock: "free" | "collect" (read-held by a collect pass); AllocCounter / the free callback
+                \* take it for writing within one step
+  latched,      \* the pass has latched the registered counter
+  collects,
+  cfgTO,        \* the configuration the processor holds has a connect timeout
+  cfgs,
+  crashed       \* the process has died (nil map in the backend writer / nil timeout in createClient)
 
 pvars == <<full, hand, asking, wedged, stalls, asks>>      \* pipeline part
-vars == <<table, call, gens, callRes, alive, exited, created, up, rq, rqc, outcome, sawDown, next, rst, snap, genDown, faults, pvars, mu>>
+cvars == <<reg, cctr, dead, tostop, fr, rw, latched, collects, cfgTO, cfgs, crashed>>     \* counters, configuration
+vars == <<table, call, gens, callRes, alive, exited, created, up, rq, rqc, outcome, sawDown, next, rst, snap, genDown, faults, pvars, mu, cvars>>
 
 Init ==
   /\ table = NoClient /\ call = 0 /\ gens = 0 /\ callRes = [g \in 1..MaxGens |-> Pending]
@@ -96,6 +129,8 @@ Init ==
   /\ next = 1 /\ rst = "idle" /\ snap = NoClient /\ genDown = [g \in 1..MaxGens |-> FALSE] /\ faults = 0
   /\ full = [c \in Clients |-> FALSE] /\ hand = [c \in Clients |-> 0] /\ asking = [r \in Reqs |-> FALSE]
   /\ wedged = [c \in Clients |-> FALSE] /\ stalls = 0 /\ asks = 0 /\ mu = "free"
+  /\ reg = 0 /\ cctr = [c \in Clients |-> 0] /\ dead = [k \in Clients |-> FALSE] /\ tostop = {} /\ fr = 0
+  /\ rw = "free" /\ latched = FALSE /\ collects = 0 /\ cfgTO = TRUE /\ cfgs = 0 /\ crashed = FALSE
 
 InFlight(r) == rq[r] \notin {"idle", "done"}
 \* every request in flight witnesses a fault
@@ -120,7 +155,7 @@ Issue(r) ==
   /\ sawDown' = [sawDown EXCEPT ![r] = ~up \/ \E c \in Clients : exited[c]]
   /\ \/ UNCHANGED <<asking, asks>>
      \/ asks < MaxAsk /\ asks' = asks + 1 /\ asking' = [asking EXCEPT ![r] = TRUE]
-  /\ UNCHANGED <<mu, table, call, gens, callRes, alive, exited, created, up, rqc, outcome, rst, snap, genDown, faults, full, hand, wedged, stalls>>
+  /\ UNCHANGED <<mu, table, call, gens, callRes, alive, exited, created, up, rqc, outcome, rst, snap, genDown, faults, full, hand, wedged, stalls, cvars>>
 
 (* getClient (upstream.go:214-233): hit -> send; miss -> LoadOrStore the call *)
 Lookup(r) ==
@@ -133,7 +168,7 @@ Lookup(r) ==
                    /\ rq' = [rq EXCEPT ![r] = "dial"] /\ rqc' = [rqc EXCEPT ![r] = gens + 1]
               ELSE /\ rq' = [rq EXCEPT ![r] = "waitcall"] /\ rqc' = [rqc EXCEPT ![r] = call]
                    /\ UNCHANGED <<call, gens>>
-  /\ UNCHANGED <<mu, table, callRes, alive, exited, created, up, outcome, sawDown, next, rst, snap, genDown, faults, pvars>>
+  /\ UNCHANGED <<mu, table, callRes, alive, exited, created, up, outcome, sawDown, next, rst, snap, genDown, faults, pvars, cvars>>
 
 (* a caller that found an existing call entry waits for it and takes its result; the shared attempt may  *)
 (* have been started while the backend was down (fail fast): that request witnesses the outage too       *)
@@ -143,35 +178,42 @@ WaitCall(r) ==
        THEN /\ outcome' = [outcome EXCEPT ![r] = "err"] /\ rq' = [rq EXCEPT ![r] = "done"] /\ UNCHANGED rqc
        ELSE /\ rqc' = [rqc EXCEPT ![r] = callRes[rqc[r]]] /\ rq' = [rq EXCEPT ![r] = "send"] /\ UNCHANGED outcome
   /\ sawDown' = [sawDown EXCEPT ![r] = @ \/ genDown[rqc[r]]]
-  /\ UNCHANGED <<mu, table, call, gens, callRes, alive, exited, created, up, next, rst, snap, genDown, faults, pvars>>
+  /\ UNCHANGED <<mu, table, call, gens, callRes, alive, exited, created, up, next, rst, snap, genDown, faults, pvars, cvars>>
 
 (* the caller that stored the call starts to connect: whether the backend is reachable is decided now,    *)
 (* the attempt finishes later (DialEnd)                                                                    *)
 DialStart(r) ==
   /\ rq[r] = "dial" /\ mu = "free" /\ rq' = [rq EXCEPT ![r] = "dialing"]
   /\ genDown' = [genDown EXCEPT ![rqc[r]] = ~up]
-  /\ UNCHANGED <<mu, table, call, gens, callRes, alive, exited, created, up, rqc, outcome, sawDown, next, rst, snap, faults, pvars>>
+  /\ UNCHANGED <<mu, table, call, gens, callRes, alive, exited, created, up, rqc, outcome, sawDown, next, rst, snap, faults, pvars, cvars>>
 
 (* createClient (upstream.go:235-270) by the caller that stored the call    *)
 Dial(r) ==
-  /\ rq[r] = "dialing" /\ mu = "free"
+  /\ rq[r] = "dialing" /\ mu = "free" /\ (Counters => rw = "free")
   /\ IF table # NoClient
        THEN \* somebody registered a client meanwhile
             /\ callRes' = [callRes EXCEPT ![rqc[r]] = table] /\ rqc' = [rqc EXCEPT ![r] = table]
             /\ rq' = [rq EXCEPT ![r] = "send"]
-            /\ UNCHANGED <<table, alive, exited, created, outcome>>
+            /\ UNCHANGED <<table, alive, exited, created, outcome, cctr, reg>>
        ELSE IF ~genDown[rqc[r]] /\ created < MaxClients
               THEN /\ created' = created + 1
                    /\ table' = created + 1 /\ alive' = [alive EXCEPT ![created + 1] = up]
                    /\ exited' = [exited EXCEPT ![created + 1] = ~up]
                    /\ callRes' = [callRes EXCEPT ![rqc[r]] = created + 1] /\ rqc' = [rqc EXCEPT ![r] = created + 1]
                    /\ rq' = [rq EXCEPT ![r] = "send"] /\ UNCHANGED outcome
-              ELSE /\ genDown[rqc[r]]
+                   \* AllocCounter(addr): the counter registered under the address, a new one otherwise
+                   /\ IF Counters
+                        THEN /\ cctr' = [cctr EXCEPT ![created + 1] = IF reg # 0 THEN reg ELSE created + 1]
+                             /\ reg' = IF reg # 0 THEN reg ELSE created + 1
+                        ELSE UNCHANGED <<cctr, reg>>
+              ELSE /\ genDown[rqc[r]] /\ UNCHANGED <<cctr, reg>>
                    /\ callRes' = [callRes EXCEPT ![rqc[r]] = NoClient]
                    /\ outcome' = [outcome EXCEPT ![r] = "err"] /\ rq' = [rq EXCEPT ![r] = "done"]
                    /\ UNCHANGED <<table, alive, exited, created, rqc>>
   /\ call' = IF FixCallEntry THEN 0 ELSE call
-  /\ UNCHANGED <<mu, gens, up, sawDown, next, rst, snap, genDown, faults, pvars>>
+  \* netutil.Dial(addr, *cfg.ConnectTimeout): a configuration without the timeout kills the process at the connect
+  /\ crashed' = (crashed \/ (table = NoClient /\ ~cfgTO))
+  /\ UNCHANGED <<mu, gens, up, sawDown, next, rst, snap, genDown, faults, pvars, dead, tostop, fr, rw, latched, collects, cfgTO, cfgs>>
 
 (* client.Send + the round trip: served if the client is alive, answered    *)
 (* with an error by Send / the drain if it has quit.  While the backend     *)
@@ -180,7 +222,10 @@ SendAndReply(r) ==
   /\ rq[r] = "send" /\ ~(alive[rqc[r]] /\ full[rqc[r]])
   /\ outcome' = [outcome EXCEPT ![r] = IF alive[rqc[r]] THEN "ok" ELSE "err"]
   /\ rq' = [rq EXCEPT ![r] = "done"]
-  /\ UNCHANGED <<mu, table, call, gens, callRes, alive, exited, created, up, rqc, sawDown, next, rst, snap, genDown, faults, pvars>>
+  \* the writer counts the key of every command in the client's counter
+  /\ crashed' = (crashed \/ (alive[rqc[r]] /\ cctr[rqc[r]] # 0 /\ dead[cctr[rqc[r]]]))
+  /\ UNCHANGED <<mu, table, call, gens, callRes, alive, exited, created, up, rqc, sawDown, next, rst, snap, genDown, faults, pvars,
+                  reg, cctr, dead, tostop, fr, rw, latched, collects, cfgTO, cfgs>>
 
 (* loopWrite takes the next request of a stalled connection and waits at the hand-over to the in-flight    *)
 (* queue: with the command written (hand-off of the command), or - for an asking request - with ASKING     *)
@@ -188,20 +233,20 @@ SendAndReply(r) ==
 WriterTake(r) ==
   /\ rq[r] = "send" /\ alive[rqc[r]] /\ full[rqc[r]] /\ hand[rqc[r]] = 0
   /\ hand' = [hand EXCEPT ![rqc[r]] = r] /\ rq' = [rq EXCEPT ![r] = "inhand"]
-  /\ UNCHANGED <<mu, table, call, gens, callRes, alive, exited, created, up, rqc, outcome, sawDown, next, rst, snap, genDown, faults, full, asking, wedged, stalls, asks>>
+  /\ UNCHANGED <<mu, table, call, gens, callRes, alive, exited, created, up, rqc, outcome, sawDown, next, rst, snap, genDown, faults, full, asking, wedged, stalls, asks, cvars>>
 
 (* the backend answers again: the hand-over completes *)
 HandOver(r) ==
   /\ rq[r] = "inhand" /\ alive[rqc[r]] /\ ~full[rqc[r]]
   /\ hand' = [hand EXCEPT ![rqc[r]] = 0] /\ rq' = [rq EXCEPT ![r] = "send"]
-  /\ UNCHANGED <<mu, table, call, gens, callRes, alive, exited, created, up, rqc, outcome, sawDown, next, rst, snap, genDown, faults, full, asking, wedged, stalls, asks>>
+  /\ UNCHANGED <<mu, table, call, gens, callRes, alive, exited, created, up, rqc, outcome, sawDown, next, rst, snap, genDown, faults, full, asking, wedged, stalls, asks, cvars>>
 
 (* the connection was lost while the writer waited: quit wakes it, the request in hand is answered here *)
 HandQuit(r) ==
   /\ rq[r] = "inhand" /\ ~alive[rqc[r]] /\ ~wedged[rqc[r]]
   /\ hand' = [hand EXCEPT ![rqc[r]] = 0]
   /\ outcome' = [outcome EXCEPT ![r] = "err"] /\ rq' = [rq EXCEPT ![r] = "done"]
-  /\ UNCHANGED <<mu, table, call, gens, callRes, alive, exited, created, up, rqc, sawDown, next, rst, snap, genDown, faults, full, asking, wedged, stalls, asks>>
+  /\ UNCHANGED <<mu, table, call, gens, callRes, alive, exited, created, up, rqc, sawDown, next, rst, snap, genDown, faults, full, asking, wedged, stalls, asks, cvars>>
 
 (* environment: the backend stops answering; the traffic of other sessions fills the in-flight queue of   *)
 (* the connection.  Taken while no modelled request is on its way, so that the next request is the one    *)
@@ -210,33 +255,33 @@ Stall(c) ==
   /\ alive[c] /\ table = c /\ ~full[c] /\ stalls < MaxStalls /\ rst = "idle"
   /\ \A r \in Reqs : ~InFlight(r)
   /\ stalls' = stalls + 1 /\ full' = [full EXCEPT ![c] = TRUE]
-  /\ UNCHANGED <<mu, table, call, gens, callRes, alive, exited, created, up, rq, rqc, outcome, sawDown, next, rst, snap, genDown, faults, hand, asking, wedged, asks>>
+  /\ UNCHANGED <<mu, table, call, gens, callRes, alive, exited, created, up, rq, rqc, outcome, sawDown, next, rst, snap, genDown, faults, hand, asking, wedged, asks, cvars>>
 Unstall(c) ==
   /\ alive[c] /\ full[c] /\ full' = [full EXCEPT ![c] = FALSE]
-  /\ UNCHANGED <<mu, table, call, gens, callRes, alive, exited, created, up, rq, rqc, outcome, sawDown, next, rst, snap, genDown, faults, hand, asking, wedged, stalls, asks>>
+  /\ UNCHANGED <<mu, table, call, gens, callRes, alive, exited, created, up, rq, rqc, outcome, sawDown, next, rst, snap, genDown, faults, hand, asking, wedged, stalls, asks, cvars>>
 
 (* environment: the connection of client c is lost (reset, backend restart) *)
 ConnLost(c) ==
   /\ alive[c] /\ faults < MaxFaults /\ faults' = faults + 1
   /\ Lose({c})
   /\ sawDown' = Witness
-  /\ UNCHANGED <<mu, table, call, gens, callRes, created, up, rq, rqc, outcome, next, rst, snap, genDown, hand, asking, stalls, asks>>
+  /\ UNCHANGED <<mu, table, call, gens, callRes, created, up, rq, rqc, outcome, next, rst, snap, genDown, hand, asking, stalls, asks, cvars>>
 
 (* environment: the backend goes down (all its connections are lost) / comes back *)
 BackendDown ==
   /\ up /\ faults < MaxFaults /\ faults' = faults + 1 /\ up' = FALSE
   /\ Lose(Clients)
   /\ sawDown' = Witness
-  /\ UNCHANGED <<mu, table, call, gens, callRes, created, rq, rqc, outcome, next, rst, snap, genDown, hand, asking, stalls, asks>>
+  /\ UNCHANGED <<mu, table, call, gens, callRes, created, rq, rqc, outcome, next, rst, snap, genDown, hand, asking, stalls, asks, cvars>>
 BackendUp ==
   /\ ~up /\ up' = TRUE
-  /\ UNCHANGED <<mu, table, call, gens, callRes, alive, exited, created, rq, rqc, outcome, sawDown, next, rst, snap, genDown, faults, pvars>>
+  /\ UNCHANGED <<mu, table, call, gens, callRes, alive, exited, created, rq, rqc, outcome, sawDown, next, rst, snap, genDown, faults, pvars, cvars>>
 
 (* the goroutine `c.Start(); u.removeClient(addr)` (upstream.go:263-268)     *)
 RemoveSelf(c) ==
   /\ exited[c] /\ mu = "free" /\ exited' = [exited EXCEPT ![c] = FALSE]
   /\ table' = IF FixRemoveOwn /\ table # c THEN table ELSE NoClient
-  /\ UNCHANGED <<mu, call, gens, callRes, alive, created, up, rq, rqc, outcome, sawDown, next, rst, snap, genDown, faults, pvars>>
+  /\ UNCHANGED <<mu, call, gens, callRes, alive, created, up, rq, rqc, outcome, sawDown, next, rst, snap, genDown, faults, pvars, cvars>>
 
 (* OnHostReplace -> resetAllClients (upstream.go:290-302): snapshot of the    *)
 (* table, empty the table under the lock, then stop the clients of the      *)
@@ -245,7 +290,7 @@ ResetSnapshot ==
   /\ rst = "idle" /\ mu = "free" /\ faults < MaxFaults /\ faults' = faults + 1
   /\ ~FixResetSnapshot
   /\ rst' = "snap" /\ snap' = table
-  /\ UNCHANGED <<mu, table, call, gens, callRes, alive, exited, created, up, rq, rqc, outcome, sawDown, next, genDown, pvars>>
+  /\ UNCHANGED <<mu, table, call, gens, callRes, alive, exited, created, up, rq, rqc, outcome, sawDown, next, genDown, pvars, cvars>>
 
 ResetSwap ==
   /\ mu = "free"
@@ -256,7 +301,9 @@ ResetSwap ==
   \* the old clients (of every address) are stopped next; the variant keeps clientsMu until they have all stopped
   /\ IF ResetStopsUnderLock THEN rst' = "stopping" /\ mu' = "reset" ELSE rst' = "idle" /\ UNCHANGED mu
   /\ sawDown' = Witness
-  /\ UNCHANGED <<call, gens, callRes, created, up, rq, rqc, outcome, next, genDown, hand, asking, stalls, asks>>
+  /\ tostop' = IF Counters THEN tostop \cup ({IF rst = "snap" THEN snap ELSE table} \cap Clients) ELSE tostop
+  /\ UNCHANGED <<call, gens, callRes, created, up, rq, rqc, outcome, next, genDown, hand, asking, stalls, asks,
+                  reg, cctr, dead, fr, rw, latched, collects, cfgTO, cfgs, crashed>>
 
 \* the reader of the redirecting client is on its way to a client of this address for a redirected request
 ReaderBusy == \E r \in Reqs : asking[r] /\ rq[r] \in {"lookup", "waitcall", "dial", "dialing"}
@@ -264,11 +311,55 @@ ReaderBusy == \E r \in Reqs : asking[r] /\ rq[r] \in {"lookup", "waitcall", "dia
 ResetDone ==
   /\ rst = "stopping" /\ ~ReaderBusy
   /\ rst' = "idle" /\ mu' = "free"
-  /\ UNCHANGED <<table, call, gens, callRes, alive, exited, created, up, rq, rqc, outcome, sawDown, next, snap, genDown, faults, pvars>>
+  /\ UNCHANGED <<table, call, gens, callRes, alive, exited, created, up, rq, rqc, outcome, sawDown, next, snap, genDown, faults, pvars, cvars>>
+
+(* client.Stop of an old client (after its loops have ended): filter.Reset -> Counter.Free.  In the code: the free  *)
+(* callback unregisters the counter under the collector's lock, then the counter is reset under its own lock.   *)
+(* Variant FreeHoldsCounterLock: the counter's lock is taken first and kept while the callback runs.             *)
+StopFreeA(c) ==
+  /\ Counters /\ c \in tostop /\ fr = 0 /\ ~alive[c]
+  /\ IF FreeHoldsCounterLock
+       THEN UNCHANGED reg                                   \* counter lock taken (fr = c holds it)
+       ELSE rw = "free" /\ reg' = 0                         \* delete(counters, addr) - by name
+  /\ fr' = c
+  /\ UNCHANGED <<mu, table, call, gens, callRes, alive, exited, created, up, rq, rqc, outcome, sawDown, next, rst, snap, genDown, faults, pvars,
+                  cctr, dead, tostop, rw, latched, collects, cfgTO, cfgs, crashed>>
+StopFreeB(c) ==
+  /\ Counters /\ fr = c
+  /\ IF FreeHoldsCounterLock THEN rw = "free" /\ reg' = 0 ELSE UNCHANGED reg
+  /\ dead' = [dead EXCEPT ![cctr[c]] = FreeDestroys]
+  /\ fr' = 0 /\ tostop' = tostop \ {c}
+  /\ UNCHANGED <<mu, table, call, gens, callRes, alive, exited, created, up, rq, rqc, outcome, sawDown, next, rst, snap, genDown, faults, pvars,
+                  cctr, rw, latched, collects, cfgTO, cfgs, crashed>>
+
+(* the collector's pass (every 10 s): read lock, Latch of every registered counter (counter lock), unlock *)
+CounterLockHeld == FreeHoldsCounterLock /\ fr # 0 /\ cctr[fr] = reg
+CollectStart ==
+  /\ Counters /\ rw = "free" /\ collects < MaxCollects /\ reg # 0
+  /\ rw' = "collect" /\ latched' = FALSE /\ collects' = collects + 1
+  /\ UNCHANGED <<mu, table, call, gens, callRes, alive, exited, created, up, rq, rqc, outcome, sawDown, next, rst, snap, genDown, faults, pvars,
+                  reg, cctr, dead, tostop, fr, cfgTO, cfgs, crashed>>
+CollectLatch ==
+  /\ rw = "collect" /\ ~latched /\ ~CounterLockHeld /\ latched' = TRUE
+  /\ UNCHANGED <<mu, table, call, gens, callRes, alive, exited, created, up, rq, rqc, outcome, sawDown, next, rst, snap, genDown, faults, pvars,
+                  reg, cctr, dead, tostop, fr, rw, collects, cfgTO, cfgs, crashed>>
+CollectEnd ==
+  /\ rw = "collect" /\ latched /\ rw' = "free"
+  /\ UNCHANGED <<mu, table, call, gens, callRes, alive, exited, created, up, rq, rqc, outcome, sawDown, next, rst, snap, genDown, faults, pvars,
+                  reg, cctr, dead, tostop, fr, latched, collects, cfgTO, cfgs, crashed>>
+
+(* environment: a run-time configuration update that does not name the connect timeout; the processor wrapper fills *)
+(* the default in before the processor stores it                                                                   *)
+ConfigUpdate ==
+  /\ cfgs < MaxCfg /\ cfgs' = cfgs + 1 /\ cfgTO' = ~UpdateLosesDefaults
+  /\ UNCHANGED <<mu, table, call, gens, callRes, alive, exited, created, up, rq, rqc, outcome, sawDown, next, rst, snap, genDown, faults, pvars,
+                  reg, cctr, dead, tostop, fr, rw, latched, collects, crashed>>
 
 ProxyNext == (\E r \in Reqs : Lookup(r) \/ WaitCall(r) \/ DialStart(r) \/ Dial(r) \/ SendAndReply(r) \/ WriterTake(r) \/ HandOver(r) \/ HandQuit(r))
-               \/ (\E c \in Clients : RemoveSelf(c))
+               \/ (\E c \in Clients : RemoveSelf(c) \/ StopFreeA(c) \/ StopFreeB(c))
+               \/ CollectLatch \/ CollectEnd
 EnvNext == (\E r \in Reqs : Issue(r)) \/ (\E c \in Clients : ConnLost(c) \/ Stall(c) \/ Unstall(c)) \/ BackendDown \/ BackendUp \/ ResetSnapshot
+             \/ CollectStart \/ ConfigUpdate
 ResetNext == ResetSwap \/ ResetDone
 Next == ProxyNext \/ EnvNext \/ ResetNext
 Spec == Init /\ [][Next]_vars /\ WF_vars(ProxyNext) /\ WF_vars(ResetNext)
@@ -279,7 +370,7 @@ Spec == Init /\ [][Next]_vars /\ WF_vars(ProxyNext) /\ WF_vars(ResetNext)
 ErrorsOnlyWhileDown == \A r \in Reqs : outcome[r] = "err" => sawDown[r]
 
 \* the table never holds a client whose goroutine has finished and removed itself (dead entry for ever)
-Quiet == (\A r \in Reqs : ~InFlight(r)) /\ (\A c \in Clients : ~exited[c]) /\ rst = "idle"
+Quiet == (\A r \in Reqs : ~InFlight(r)) /\ (\A c \in Clients : ~exited[c]) /\ rst = "idle" /\ tostop = {} /\ rw = "free"
 NoDeadEntry == Quiet => (table # NoClient => alive[table])
 \* a running client is always reachable through the table (otherwise it is never stopped: leak)
 NoOrphanClient == Quiet => \A c \in Clients : alive[c] => table = c
@@ -293,6 +384,18 @@ NoStuckReset == ~(rst = "stopping" /\ \E r \in Reqs : asking[r] /\ rq[r] \in {"d
 \* window (must be reachable): all clients are reset while the reader of a redirecting client is about to create the client
 \* of this address
 W_ResetDuringRedirectDial == rst = "idle" /\ table = NoClient /\ \E r \in Reqs : asking[r] /\ rq[r] \in {"dial", "dialing"} /\ sawDown[r]
+\* the process never dies: not at a connect (configuration without the timeout), not in a backend writer (counter freed
+\* under the feet of the successor connection that shares it)
+NoCrash == ~crashed
+\* Counter.Free and the collector's pass never wait for each other (createClient needs the collector's lock: no backend
+\* connection could be created any more)
+NoLockCycle == ~(rw = "collect" /\ ~latched /\ CounterLockHeld)
+\* windows (must be reachable): the successor connection shares the counter of a client that is still to be stopped;
+\* a client is stopped (its counter freed) during a pass of the collector; a connect after a configuration update
+W_SharedCounter == \E c \in tostop : table # NoClient /\ table # c /\ cctr[table] = cctr[c]
+W_FreeDuringCollect == rw = "collect" /\ fr # 0
+NoSharedCounter == ~W_SharedCounter
+NoFreeDuringCollect == ~W_FreeDuringCollect
 NoResetDuringRedirectDial == ~W_ResetDuringRedirectDial
 \* window: the connection is alive, its in-flight queue is full and the writer waits with a request in hand (must be reachable)
 W_HandoverCmd == \E c \in Clients : alive[c] /\ hand[c] # 0 /\ ~asking[hand[c]]
